@@ -116,7 +116,7 @@ def config_keys(ctx, model_ok):
 
     n_cfg = 300 if ctx.quick() else 6000
     # corpus first: the recorded witnesses of the known findings, then generated trees
-    corpus = [{"a\\": {"b": 1}}, {"a": {1: 2}}, {"x": {"\\/": 1}}, {"1\r.1": "", "k": 1}]
+    corpus = [{"a\\": {"b": 1}}, {"a": {1: 2}}, {"x": {"\\/": 1}}, {"1\r.1": "", "k": 1}, {"c": ["x", 1], "/c": 1}]
     for n_tree in range(n_cfg + len(corpus)):
         if n_tree < len(corpus):
             tree = corpus[n_tree]
@@ -158,6 +158,9 @@ def config_keys(ctx, model_ok):
                         key = "config-key-backslash-before-delimiter"
                     elif ("\\" + dl) in name and ("\r" in name or dl == "\r"):
                         key = "config-key-cr-with-escaped-delimiter"
+                    elif isinstance(tree, dict) and name in tree and tup != (name,):
+                        # the delimited name of one entry is, character for character, a top-level key of another entry
+                        key = "config-name-equals-top-level-key"
                     else:
                         key = f"config-name:{tree!r}:{name!r}"
                     viol(f"Config({tree!r}): name {name!r} reported by names(delimiter={delim!r}) {outcome}", key,
